@@ -177,6 +177,16 @@ pub fn gen_clock_go(rng: &mut Rng, white_to_move: bool) -> GoSpec {
     if rng.chance(1, 3) {
         g.movestogo = Some(*rng.pick(&[1u32, 2, 5, 40, 100]));
     }
+    // the opponent may have overstepped: GUIs that do not enforce the flag send a negative clock
+    if rng.chance(1, 25) {
+        if white_to_move && g.btime.is_some() {
+            g.btime = Some(rng.range(1, 5_000));
+            g.btime_negative = true;
+        } else if !white_to_move && g.wtime.is_some() {
+            g.wtime = Some(rng.range(1, 5_000));
+            g.wtime_negative = true;
+        }
+    }
     g
 }
 
